@@ -1190,7 +1190,7 @@ fn l_apply_writes_update_then_remove() {
 #[allow(dead_code)] fn _keep_l_apply_writes() { l_apply_writes_update_then_remove() }
 
 /// one whole Inner::sync: a queued Hit of resident 0 and a queued insert of a new key that fits
-fn l_sync_round(ttl: bool, tti: bool) {
+fn l_sync_round(ttl: bool, tti: bool, late: bool) {
     let st = sbuild(&sc(1, None, true, WT_A, ttl, tti, false, 1));
     let g = st.g;
     let inner = &*st.b.inner;
@@ -1200,6 +1200,8 @@ fn l_sync_round(ttl: bool, tti: bool) {
     let nv = Val { cls: 1, data: kani::any() };
     let (op, _) = st.b.do_insert_with_hash(Arc::new(1u8), IdH::h(1), nv);
     assert!(st.b.write_op_ch.try_send(op).is_ok());
+    // (late: the write stays queued while the clock advances; deadlines still run from the insert)
+    if late { set_now((g.now.0 + 7, 3)); }
     inner.sync(MAX_SYNC_REPEATS_PUB);
     assert!(st.b.read_op_ch.len() == 0 && st.b.write_op_ch.len() == 0, "C09: sync must drain both queues");
     let w1 = g.weigh(1, nv);
@@ -1220,9 +1222,10 @@ fn l_sync_round(ttl: bool, tti: bool) {
     std::mem::forget(e1);
     std::mem::forget(st);
 }
-sh!(l_sync_round_plain, l_sync_round(false, false));
+sh!(l_sync_round_plain, l_sync_round(false, false, false));
+sh!(l_sync_round_plain_late, l_sync_round(false, false, true));
 // not instantiated: no verdict in 40 min once evict_expired runs after an admission
-// sh!(l_sync_round_expiry, l_sync_round(true, true));
+// sh!(l_sync_round_expiry, l_sync_round(true, true, false));
 
 /// Inner::sync with both queues EMPTY on a cache that is still over capacity (an earlier run hit its
 /// eviction batch limit, or a grown update was applied by the previous run): every maintenance run
